@@ -988,3 +988,49 @@ Example C01_example_run3 :
      R3Unit; R3Base (RBase (RVal (v_ 6 2))); R3Base (RBase (RBool false));
      R3Unit; R3Base (RBase (RVal (v_ 6 4))); R3Base (RBase (RBool false))].
 Proof. vm_compute. reflexivity. Qed.
+
+(* ------------------------------------------------------------------------
+   HISTORIES under an operand-determined == that is no equivalence
+   (Proofs/PureEqHist.v, [Related E ck cq R], R an arbitrary relation on
+   classes).  There is no "ideal dictionary" for such an ==, but every history
+   of insert / insert_key_value / get / contains_key / remove / remove_entry is
+   still a deterministic function of a pure LIST machine ([rstep]: the first
+   stored key related to the needle decides, the stored key is kept on insert,
+   removal is swap-remove, insertion of an unrelated key into a full map
+   panics and changes nothing) -- every result, panics included, for histories
+   of any length from any well-formed state.
+   ------------------------------------------------------------------------ *)
+Require Import Proofs.PureEq Proofs.PureEqHist.
+
+Theorem C01_history_any_relation :
+  forall (K V Q T : Type) (E : env K V Q T) (debug : bool) (ck : K -> N) (cq : Q -> N) (R : N -> N -> bool)
+         (HR : Related E ck cq R) (ops : list (@rop K V Q)) (w : world K V T),
+    WF (self w) ->
+    mrun_r E debug ops w = lrun_r ck cq R (cap (self w)) ops (Spec.elems (self w)).
+Proof. exact (fun K V Q T E debug ck cq R HR => run_refines_rel E debug ck cq R HR). Qed.
+Print Assumptions C01_history_any_relation.
+
+Theorem C01_history_any_relation_new :
+  forall (K V Q T : Type) (E : env K V Q T) (debug : bool) (ck : K -> N) (cq : Q -> N) (R : N -> N -> bool)
+         (HR : Related E ck cq R) (n : nat) (ops : list (@rop K V Q)) (s : T) (lg : list event),
+    mrun_r E debug ops {| cb := s; log := lg; self := new_map n |} = lrun_r ck cq R n ops [].
+Proof. exact (fun K V Q T E debug ck cq R HR => run_refines_rel_new E debug ck cq R HR). Qed.
+Print Assumptions C01_history_any_relation_new.
+
+(* the interpreter's environment under the fifth kind of script is an instance (R = "<=" on classes) *)
+Theorem C01_history_asym :
+  forall (sc : script) (debug : bool) (ops : list (@rop key vobj query)) (w : world key vobj cstate),
+    asym sc = true -> sc_fk sc = 0%N -> WF (self w) ->
+    mrun_r (env_map sc) debug ops w = lrun_r kcls qcls N.leb (cap (self w)) ops (Spec.elems (self w)).
+Proof. exact run_refines_asym. Qed.
+Print Assumptions C01_history_asym.
+
+(* a concrete history of the list machine under "<=" (capacity 2): overflow of an unrelated key, the stored key kept,
+   first-related-wins in lookups, swap-remove *)
+Theorem C01_example_history_leb :
+  @lrun_r N N N (fun n : N => n) (fun n : N => n) N.leb 2
+    [RInsert 5%N 10%N; RInsert 3%N 20%N; RInsert 1%N 30%N; RInsert 7%N 40%N;
+     RContains 4%N; RRemoveEntry 9%N; RGet 9%N; RRemove 0%N] []
+  = [ONone; ONone; OPanic; OVal 10%N; OBool true; OPair (5%N, 40%N); OSlot (Some 0); ONone].
+Proof. exact hist_leb_long. Qed.
+Print Assumptions C01_example_history_leb.
